@@ -70,6 +70,10 @@ impl<E: Est> Dur for E {
         Est::count(self)
     }
     fn dbg(&self) -> String {
+        // Min/Max: the sign of a zero extreme is unspecified (see types::same_stat)
+        if E::ORDER == 0 {
+            return self.debug().replace("-0.0", "0.0");
+        }
         self.debug()
     }
     fn to_json(&self) -> String {
@@ -247,7 +251,8 @@ fn obs_diff(a: &[(String, f64)], b: &[(String, f64)]) -> Option<String> {
         return Some(format!("{} vs {} statistics", a.len(), b.len()));
     }
     for (x, y) in a.iter().zip(b.iter()) {
-        if x.0 != y.0 || !same_bits(x.1, y.1) {
+        let zero_tie = (x.0 == "Min" || x.0 == "Max" || (x.0 == "estimate" && a.len() == 2)) && x.1 == 0.0 && y.1 == 0.0;
+        if x.0 != y.0 || !(same_bits(x.1, y.1) || zero_tie) {
             return Some(format!("{} = {:e} (0x{:016x}) vs {:e} (0x{:016x})", x.0, x.1, x.1.to_bits(), y.1, y.1.to_bits()));
         }
     }
